@@ -103,7 +103,8 @@ class Flaky(Command):
     def execute(self, **kwargs):
         EXEC_LOG.append(self.result_name)
         if FLAKY["fail"]:
-            raise IOError("input not available yet")
+            # part-way through its work the command hits a problem (the kind of exception varies)
+            raise FLAKY.get("exc", IOError)("input not available yet")
         return ("flaky", self.result_name, tuple((k, _val(kwargs[k])) for k in sorted(kwargs) if k != "Metadata"))
 
 
